@@ -140,6 +140,7 @@ type modelCtx struct {
 	Level string   `json:"level"`
 	Pre   []string `json:"pre"`
 	Post  []string `json:"post"`
+	Bare  bool     `json:"bare"`
 }
 
 func addModelPumps(cs []modelCtx) {
@@ -151,6 +152,13 @@ func addModelPumps(cs []modelCtx) {
 			build = func(d int) string { return rep(pre, d) + "SELECT (1)" + rep(post, d) }
 		}
 		pumps = append(pumps, pump{Name: "model:" + c.Name, Tokens: len(c.Pre) + len(c.Post), Build: build})
+		if c.Bare && c.Level == "expression" {
+			// the same context without the parentheses around its hole: every level passes the productions of this
+			// operand position and nothing else
+			bpre, bpost := strings.Join(c.Pre[:len(c.Pre)-1], " ")+" ", " "+strings.Join(c.Post[1:], " ")
+			pumps = append(pumps, pump{Name: "model-bare:" + c.Name, Tokens: len(c.Pre) + len(c.Post) - 2,
+				Build: func(d int) string { return "SELECT " + rep(bpre, d) + "a" + rep(bpost, d) + " FROM t" }})
+		}
 	}
 }
 
@@ -462,7 +470,7 @@ func nesting(tier string) {
 			max = 2000000 // comments produce no tokens: bounded by the input size only
 		}
 		ds := append([]int{}, depths...)
-		if strings.HasPrefix(p.Name, "model:") && tier != "thorough" { // a context of Pumps.tla
+		if strings.HasPrefix(p.Name, "model") && tier != "thorough" { // a context of Pumps.tla
 			ds = []int{1, 2, 3, 50, 99, 101, 120, 1000, 20000}
 		}
 		ds = append(ds, max)
